@@ -67,16 +67,72 @@ UNDEF = ('undef',)
 
 
 # ------------------------------------------------------------------------------------------------ symbolic execution
+TRUE, FALSE, NONE = ('true',), ('false',), ('none',)      # the two constants never survive into an emitted term
+INPUTS = ('kwRoute', 'kwTestId', 'kwTimestamp', 'arg', 'old', 'code')      # terms that stand for a fixed input value
+
+
+def subst(t, x, v):
+    """replace every occurrence of the subterm x in t by v"""
+    if t == x:
+        return v
+    if isinstance(t, tuple):
+        return tuple(subst(y, x, v) if isinstance(y, tuple) else y for y in t)
+    return t
+
+
+def fold(t):
+    """constant folding, bottom-up: notNone/truthy of None, not/and/ite on constants"""
+    if not isinstance(t, tuple) or len(t) == 1:
+        return t
+    t = tuple(fold(y) if isinstance(y, tuple) else y for y in t)
+    h = t[0]
+    if h in ('notNone', 'truthy') and t[1] == NONE:
+        return FALSE
+    if h == 'not':
+        return FALSE if t[1] == TRUE else TRUE if t[1] == FALSE else mk_not(t[1])
+    if h == 'and':
+        if FALSE in (t[1], t[2]):
+            return FALSE
+        return t[2] if t[1] == TRUE else t[1] if t[2] == TRUE else t
+    if h == 'ite':
+        return mk_ite(t[1], t[2], t[3])
+    return t
+
+
 def mk_not(c):
     return c[1] if c[0] == 'not' else ('not', c)
 
 
+def assume(t, c, value):
+    """t simplified under the knowledge that the (pure) condition c is `value`: c itself becomes a constant, and where
+    `x is not None` is false for an input x, x is None"""
+    t = subst(t, c, TRUE if value else FALSE)
+    if not value and c[0] == 'notNone' and c[1][0] in INPUTS:
+        t = subst(t, c[1], NONE)
+    return fold(t)
+
+
 def mk_ite(c, a, b):
-    if a == b:
+    if c == TRUE:
         return a
+    if c == FALSE:
+        return b
     if c[0] == 'not':
         return mk_ite(c[1], b, a)
+    a, b = assume(a, c, True), assume(b, c, False)      # path-sensitive: each arm is read knowing the outcome of the test
+    if a == b:
+        return a
+    if c == ('notNone', a) and b == NONE:               # `x if x is not None else None` is x
+        return a
     return ('ite', c, a, b)
+
+
+def flat(t):
+    yield t
+    if isinstance(t, tuple):
+        for y in t[1:]:
+            if isinstance(y, tuple):
+                yield from flat(y)
 
 
 class Sym:
@@ -122,10 +178,12 @@ class Sym:
         if isinstance(t, ast.Compare) and len(t.ops) == 1:
             op, a, b = t.ops[0], t.left, t.comparators[0]
             none = lambda x: isinstance(x, ast.Constant) and x.value is None
-            if isinstance(op, ast.IsNot) and none(b):
-                return ('notNone', self.expr(a))
-            if isinstance(op, ast.Is) and none(b):
-                return mk_not(('notNone', self.expr(a)))
+            # `== None` / `!= None` read as `is None` / `is not None`: the values here are str / bytes / set / datetime / None,
+            # none of which compares equal to None
+            if isinstance(op, (ast.IsNot, ast.NotEq)) and none(b):
+                return fold(('notNone', self.expr(a)))
+            if isinstance(op, (ast.Is, ast.Eq)) and none(b):
+                return fold(mk_not(('notNone', self.expr(a))))
             c = self.compare(op, a, b)
             if c is not None:
                 return c
@@ -196,7 +254,8 @@ class Sym:
             self.stmt(s)
 
     def out(self, key):
-        return OTHER if self.bad else self.env.get(key, UNDEF)
+        t = OTHER if self.bad else fold(self.env.get(key, UNDEF))
+        return OTHER if (TRUE in flat(t) or FALSE in flat(t)) else t
 
 
 # ------------------------------------------------------------------------------------------------ C18: StreamResultRouter
